@@ -83,11 +83,35 @@ theorem openSpan_eq_spec (c : Cfg) (e : Env) (hb : Below e.st e.rng) : openSpan 
 @[simp] theorem openSpan_st (c : Cfg) (e : Env) : (openSpan c e).2.2.2.st = e.st := by
   simp [openSpan]
 
+/-- `InSampledTraceFilter::matches`: the active traceparent's flag, or the configured answer outside traces. -/
+def passInSampled (c : Cfg) (st : Option Active) : Bool :=
+  match st with
+  | some a => a.tp.sampled
+  | none => c.outside
+
+/-- The log of a manual span from the log of a guard opened at the same point: the same sampler observation
+    underneath, the `spanOpen enabled seen` on top replaced by `spanEvent seen enabled passIn`. -/
+def asSpanEvent (passIn : Bool) : List Obs → List Obs
+  | .spanOpen en seen :: rest => .spanEvent seen en passIn :: rest
+  | o => o
+
+/-- **A manual span is filtered exactly like the start of a guard.** Emitting a span as an event draws the same
+    ids, consults the sampler under the same condition and gets the same `TraceparentFilter` verdict as
+    `SpanGuard::new` at the same point (`openSpan`); only no frame comes out of it. -/
+theorem emitSpanEvent_eq_open (c : Cfg) (e : Env) :
+    emitSpanEvent c e =
+      { (openSpan c e).2.2.2 with out := asSpanEvent (passInSampled c e.st) (openSpan c e).2.2.2.out } := by
+  rfl
+
+@[simp] theorem emitSpanEvent_st (c : Cfg) (e : Env) : (emitSpanEvent c e).st = e.st := by
+  simp [emitSpanEvent]
+
 /-- **restore** (helper form): every program leaves the thread's active traceparent as it found it — proved
     together with the fact that polling a frame-wrapped future segment by segment (enter/exit around every
     poll) threads the environment exactly like running the segments inside one entered frame. -/
 theorem restore (c : Cfg) : ∀ (p : Prog) (e : Env), (run c p e).st = e.st
   | .event, e => by simp [run, observeEvent]
+  | .spanEvent, e => by simp [run]
   | .span cs, e => by
     simp only [run]
     cases hs : (openSpan c e).2.2.1 with
